@@ -256,7 +256,8 @@ class DocGen:
         if kind == "scalar":
             return self.scalar()
         if kind == "ref":
-            return self.ref(r.choice(list(self.schema_kind)))
+            # models dedicated to form/multipart bodies may hold binary fields: never reachable from JSON contexts
+            return self.ref(r.choice([n for n, k in self.schema_kind.items() if k != "bodymodel"] or list(self.schema_kind)))
         if kind == "enum":
             return self.enum_schema()
         if kind == "array":
